@@ -64,6 +64,21 @@ def generate(loader):
                     raise TraceError("GridAttrs constructor does not store origin / spacing as given")
         finally:
             M.np = _NP()
+        # indices / points: entry [k, j, i] (array order) holds the index (i, j, k) (grid order) -- numeric, shape-only check
+        M.np = np
+        try:
+            gi_ = M.GridAttrs(size=(2, 3, 4)[:D], origin=(0.0,) * D, spacing=(1.0,) * D)
+            ind = np.asarray(gi_.indices)
+            shp = tuple(reversed((2, 3, 4)[:D]))
+            if ind.shape != shp + (D,):
+                raise TraceError(f"GridAttrs.indices has shape {ind.shape}")
+            for pos in np.ndindex(*shp):
+                if [int(v) for v in ind[pos]] != [int(v) for v in reversed(pos)]:
+                    raise TraceError(f"GridAttrs.indices[{pos}] = {ind[pos].tolist()} is not the index {list(reversed(pos))} in (x, y, ...) order")
+            if not np.array_equal(np.asarray(gi_.points), ind.astype(float)):
+                raise TraceError("GridAttrs.points of the unit grid are not its indices")
+        finally:
+            M.np = _NP()
         ins = [("s", s), ("o", o), ("d", d)]
         T = lift(g.transform)
         Ti = lift(g.inverse_transform)
